@@ -248,6 +248,11 @@ func (e *Exec) builtin(t *Thread, clo *Closure, args []Value, granted bool) (Val
 			return t.panicking.val, true
 		}
 		return Iface{}, true
+	case "ssa:wrapnilchk":
+		if p, ok := args[0].(Ptr); ok && p.IsNil() {
+			e.goPanic("value method called using nil pointer")
+		}
+		return args[0], true
 	case "print", "println":
 		return nil, true
 	case "min", "max":
